@@ -75,8 +75,9 @@ func (m *c19Machine) Next(t *rapid.T) c19Op {
 		large := false
 		for i := 0; i < n; i++ {
 			// mostly valid, small alphabet so that byte-identical records are common
-			d := rapid.SampledFrom([]string{"d0", "d0", "d1", "QmHash", ""}).Draw(t, "digest")
-			a := rapid.SampledFrom([]string{"sha256", "sha256", "md5", ""}).Draw(t, "algo")
+			// incl. strings with leading/trailing blanks: valid input that must read back verbatim
+			d := rapid.SampledFrom([]string{"d0", "d0", "d1", "QmHash", "", " d0 ", "d1\n"}).Draw(t, "digest")
+			a := rapid.SampledFrom([]string{"sha256", "sha256", "md5", "", "sha256\n", " md5"}).Draw(t, "algo")
 			if rapid.IntRange(0, 9).Draw(t, "valid") < 9 {
 				if d == "" {
 					d = "d0"
